@@ -56,7 +56,7 @@ CHECKS["C04"] = dict(_tm_common, **{
     "level_text": "TM.tla states what the coordinator may observe from one WithGlobalTx scope and what the scope may "
                   "return (one truthful decision, only by the launcher, retry only after a transport error and within "
                   "the configured budget, nil only when earned, never a panic). TLC checks the design for every retry "
-                  "budget 0..3 and enumerates every behaviour of the environment (6 root modes x callback outcome "
+                  "pair of commit/rollback retry budgets in {(0,2),(2,0),(1,3),(3,1),(2,2),(1,1)} and enumerates every behaviour of the environment (6 root modes x callback outcome "
                   "nil/err/panic x begin reply ok/fail/transport error x every reply script up to 4 transport errors "
                   "x cancellation at every step); each is replayed on the real tm.WithGlobalTx with real backoff and "
                   "the recorded trace is validated by TLC against TM.tla.",
@@ -65,10 +65,12 @@ CHECKS["C04"] = dict(_tm_common, **{
                   "20 s timeout is C14's. Bounds: one scope, <=4 transport errors per loop, budgets 0..3.",
     "technique": "TLA+ spec + TLC exhaustive design check; TLC-enumerated fault/cancellation scenarios replayed on the "
                  "real WithGlobalTx; TLC trace validation",
-    "mc": [("TM_MC", "TM_MC_C04.cfg", {"workers": 4, "env": {"MAXRETRY": str(r)}}) for r in (0, 1, 2, 3)],
+    "mc": [("TM_MC", "TM_MC_C04.cfg", {"workers": 4, "env": {"MAXRETRYC": str(c), "MAXRETRYR": str(r)}})
+           for c, r in ((0, 2), (2, 0), (1, 3), (3, 1), (2, 2), (1, 1))],
     "legs": [{
         "name": "tm", "driver": "tm",
-        "gen": [("TM_MC", "TM_Gen_C04.cfg", {"MAXRETRY": str(r)}) for r in (0, 1, 2, 3)],
+        "gen": [("TM_MC", "TM_Gen_C04.cfg", {"MAXRETRYC": str(c), "MAXRETRYR": str(r)})
+                for c, r in ((0, 2), (2, 0), (1, 3), (3, 1), (2, 2), (1, 1))],
         "trace": ("TM_Trace", "TM_Trace.cfg"),
     }],
 })
